@@ -186,13 +186,13 @@ Theorem C04_session_limit_below_overhead :
 Proof. exact session_limit_below_overhead. Qed.
 Print Assumptions C04_session_limit_below_overhead.
 
-(* L = 269: the maximum is 0; an ordered Write cuts an empty frame which obfuscate refuses, after
-   the sequence counter has advanced; nothing reaches the wire. *)
+(* L = 269: the maximum is 0; an ordered Write cuts an empty frame which obfuscate refuses; the
+   sequence counter is not advanced (no frame, no number); nothing reaches the wire. *)
 Theorem C04_session_limit_equal_overhead :
   forall (L : Z) (m : method) (key : list N) (sid seq : N) (input : list N) (rand : draws),
   L = mux_frameHeaderLength + mux_maxExtraLen -> input <> [] ->
   stream_write (make_session L) false (payload_cipher m key) key sid seq input rand
-    = mkRes [] 0 (next_seq seq) EndObfsError /\
+    = mkRes [] 0 seq EndObfsError /\
   stream_write (make_session L) true (payload_cipher m key) key sid seq input rand
     = mkRes [] 0 seq EndShortBuffer.
 Proof. exact session_limit_equal_overhead. Qed.
